@@ -24,6 +24,31 @@ CLAIMS = {
    note="Trusted: simulated Lock/Event/Queue semantics, timed waits expire only at quiescence, preemption at synchronisation operations only. Bounded thread/task counts.",
    technique="TLA+ model of WorkerPool model-checked with TLC (safety+liveness, mutant); real pool under deterministic schedule exploration incl. TLC-generated schedules; traces validated by TLC against property automaton",
    ref="5/C09"),
+ "C02": dict(
+   text="spec/Gateway.tla models data frames, the receiver thread's dispatch under _receivelock, the item queue, concurrent receive() loops and setcallback() draining; TLC checks ordered, duplicate-free delivery and liveness. Generated channel programs run on the real Gateway + WorkerGateway.serve() pair over the real Popen2IO/SocketIO with scripted pipes under a deterministic baton scheduler; TLC judges every distinct event trace with spec/GatewayAbs.tla (items dequeued / passed to callbacks per endpoint = the frames that arrived, in order, once, on the right channel).",
+   note='Trusted: simulated Lock/Event/Queue/pipe semantics; preemption at synchronisation/IO operations and at source lines of listed functions; virtual time. TLC instance: one channel, K<=3 items, <=3 receivers. Oracle = property automaton spec/GatewayAbs.tla evaluated by TLC on every distinct trace.',
+   technique='TLA+ model of channel send/dispatch/receive/close/setcallback model-checked with TLC; real Gateway+WorkerGateway pair under deterministic schedule exploration (sync-point and line-level preemption); every trace validated by TLC against the TLA+ property automaton',
+   ref="5/C02"),
+ "C03": dict(
+   text='spec/Gateway.tla models _local_close and Channel.close write by write (error list, closed flag, ENDMARKER, endmarker callback, receiveclosed event); TLC checks EOF-means-complete, observer-sees-closed and liveness for all interleavings with 1-3 receivers, a waitclose caller, setcallback and a local close, and kills the pinned-tree ordering (Fix_CloseFlagFirst=FALSE). Generated send/close histories run on the real gateway pair in the simulator; GatewayAbs.tla (evaluated by TLC) demands EOF only after all arrived items, EOF forever after, and OSError/isclosed()/immediate waitclose after a close was performed or observed.',
+   note='Trusted: simulated Lock/Event/Queue/pipe semantics; preemption at synchronisation/IO operations and at source lines of listed functions; virtual time. TLC instance: one channel, K<=3 items, <=3 receivers. Oracle = property automaton spec/GatewayAbs.tla evaluated by TLC on every distinct trace.',
+   technique='TLA+ model of channel send/dispatch/receive/close/setcallback model-checked with TLC; real Gateway+WorkerGateway pair under deterministic schedule exploration (sync-point and line-level preemption); every trace validated by TLC against the TLA+ property automaton',
+   ref="5/C03"),
+ "C07": dict(
+   text='spec/Gateway.tla with error closes: TLC checks the error is raised at most once, is delivered, and does not disturb ordering. Failures at every stream position (remote bodies, callbacks on either side, channel alive or dropped, after reconfigure) run on the real gateway pair in the simulator with a sibling channel; GatewayAbs.tla (TLC) demands RemoteError exactly once, only after all arrived items, never EOFError in its place, a proper error on the failing side, and a live receiver thread afterwards.',
+   note='Trusted: simulated Lock/Event/Queue/pipe semantics; preemption at synchronisation/IO operations and at source lines of listed functions; virtual time. TLC instance: one channel, K<=3 items, <=3 receivers. Oracle = property automaton spec/GatewayAbs.tla evaluated by TLC on every distinct trace.',
+   technique='TLA+ model of channel send/dispatch/receive/close/setcallback model-checked with TLC; real Gateway+WorkerGateway pair under deterministic schedule exploration (sync-point and line-level preemption); every trace validated by TLC against the TLA+ property automaton',
+   ref="5/C07"),
+ "C10": dict(
+   text='spec/Gateway.tla models setcallback under _receivelock against dispatch and concurrent receive(); TLC checks callback order, at most one endmarker, and that a lone callback gets all K items and exactly one endmarker. Programs placing setcallback before/between/after in-flight items and closes (incl. dropped channel objects, gateway exit) run on the real gateway pair; GatewayAbs.tla (TLC) checks every item once in order, nothing after the endmarker, exactly one requested endmarker, receive() refused.',
+   note='Trusted: simulated Lock/Event/Queue/pipe semantics; preemption at synchronisation/IO operations and at source lines of listed functions; virtual time. TLC instance: one channel, K<=3 items, <=3 receivers. Oracle = property automaton spec/GatewayAbs.tla evaluated by TLC on every distinct trace.',
+   technique='TLA+ model of channel send/dispatch/receive/close/setcallback model-checked with TLC; real Gateway+WorkerGateway pair under deterministic schedule exploration (sync-point and line-level preemption); every trace validated by TLC against the TLA+ property automaton',
+   ref="5/C10"),
+ "C18": dict(
+   text='Concurrent newchannel/remote_exec on both sides and channels passed over channels (also nested) run on the real gateway pair with line-level preemption inside ChannelFactory.new; GatewayAbs.tla (TLC) checks ids pairwise distinct with the right parity, traffic on transferred channels reaching the original conversation (per-endpoint order), and channel/callback tables not larger after open/transfer/close/drop cycles than before.',
+   note='Trusted: simulated Lock/Event/Queue/pipe semantics; preemption at synchronisation/IO operations and at source lines of listed functions; virtual time. TLC instance: one channel, K<=3 items, <=3 receivers. Oracle = property automaton spec/GatewayAbs.tla evaluated by TLC on every distinct trace.',
+   technique='TLA+ model of channel send/dispatch/receive/close/setcallback model-checked with TLC; real Gateway+WorkerGateway pair under deterministic schedule exploration (sync-point and line-level preemption); every trace validated by TLC against the TLA+ property automaton',
+   ref="5/C18"),
 }
 
 NOT_YET = {}
